@@ -558,9 +558,6 @@ def classify(case, obs, spec):
                     return None
             if len(set(orders)) == len(orders):
                 return None
-        for i in d:
-            if not all(a is not None for a in answered_by(i)):
-                return None
         return 'C08-equal-order-views-answer-by-declaration-order'
     return None
 
